@@ -17,6 +17,7 @@ Families
 """
 
 import itertools
+import json
 import re
 
 from .. import ast
@@ -106,6 +107,7 @@ def gen_seq(budget, depth):
 
 def gen_node(budget, depth):
     yield ['var', N('v'), []], 1
+    yield ['ent', 'v', ['html_quote']], 1       # &dtml-v; (HTML syntaxes)
     if depth <= 0:
         return
     for inner in gen_seq(budget - 1, depth - 1):
@@ -133,7 +135,7 @@ def interleave(nodes, slots):
 
 def fill(n, slots):
     k = n[0]
-    if k == 'var':
+    if k in ('var', 'ent'):
         return n
     if k == 'if':
         return ['if', [[n[1][0][0], interleave(n[1][0][1], slots)]],
@@ -302,7 +304,10 @@ def run_free(res, case):
 
 def variants(nodes):
     """(syntax, style) pairs"""
+    has_ent = '"ent"' in json.dumps(nodes)
     for sx in ('dtml', 'ssi', 'epfs'):
+        if sx == 'epfs' and has_ent:
+            continue            # entity references are HTML syntax only
         for eol in (0, 1):
             yield sx, {'eol': eol}
 
